@@ -71,6 +71,7 @@ func stripG4Comments(s string) string {
 func splitRules(s string) map[string]string {
 	rules := map[string]string{}
 	s = stripG4Comments(s)
+	s = regexp.MustCompile(`(?s)\b(options|tokens|channels)\s*\{[^}]*\}`).ReplaceAllString(s, " ")
 	i := 0
 	for i < len(s) {
 		// read until ';' outside quotes and brackets
